@@ -11,6 +11,7 @@ import (
 	"fmt"
 	"sort"
 	"strings"
+	"testing/fstest"
 	"text/template"
 
 	"github.com/Masterminds/sprig/v3"
@@ -49,6 +50,9 @@ type renderScenario struct {
 	Environment json.RawMessage `json:"environment"` // manifests.PackageEnvironment or absent
 	Reps        int             `json:"reps"`
 	DeployReps  int             `json:"deploy_reps"`
+	// import the files with the real packages.FromFS (dot files and folders are skipped there)
+	// from an in-memory file system instead of handing the map over as it is
+	ViaFS bool `json:"via_fs"`
 }
 
 type renderObj struct {
@@ -106,6 +110,16 @@ type renderObs struct {
 	CtxBefore    string `json:"ctx_before"`
 	CtxAfter     string `json:"ctx_after"`
 	CtxUnchanged bool   `json:"ctx_unchanged"`
+	// The same component taken from StructuralLoader.Load (the path of the CLI) instead of
+	// LoadComponent (the path of the deployer): its files before rendering and its render.
+	ViaLoad *viaLoad `json:"via_load"`
+}
+
+type viaLoad struct {
+	Err     string            `json:"err"` // class of the Load / lookup / render error
+	Files   map[string]string `json:"files"`
+	Hash    string            `json:"hash"`
+	JSONSum string            `json:"json_sha256"`
 }
 
 type deployOut struct {
@@ -122,6 +136,18 @@ var renderScheme = func() *runtime.Scheme {
 	}
 	return s
 }()
+
+// rawPackage gives every repetition a RawPackage of its own (a fresh Go map).
+func (sc *renderScenario) rawPackage(ctx context.Context) (*packages.RawPackage, error) {
+	if !sc.ViaFS {
+		return &packages.RawPackage{Files: freshFiles(sc.Files)}, nil
+	}
+	mfs := fstest.MapFS{}
+	for p, c := range sc.Files {
+		mfs[p] = &fstest.MapFile{Data: []byte(c), Mode: 0o644}
+	}
+	return packages.FromFS(ctx, mfs)
+}
 
 func freshFiles(in map[string]string) packages.Files {
 	out := packages.Files{}
@@ -262,7 +288,10 @@ func renderOnceShared(ctx context.Context, sc *renderScenario, sh *renderShared)
 	if err != nil {
 		return renderGroup{Err: "scenario-environment"}
 	}
-	rawPkg := &packages.RawPackage{Files: freshFiles(sc.Files)}
+	rawPkg, err := sc.rawPackage(ctx)
+	if err != nil {
+		return renderGroup{Err: "import"}
+	}
 
 	// deployer.go:142
 	pkg, err := packages.DefaultStructuralLoader.LoadComponent(ctx, rawPkg, apiPkg.GetComponent())
@@ -360,6 +389,51 @@ func renderOnceShared(ctx context.Context, sc *renderScenario, sh *renderShared)
 	return g
 }
 
+// renderViaLoad loads the whole package with Load (structure.go:26-30), picks the root package or
+// the sub package of the scenario's component and renders it with the shared context.
+func renderViaLoad(ctx context.Context, sc *renderScenario, sh *renderShared) *viaLoad {
+	rawPkg, err := sc.rawPackage(ctx)
+	if err != nil {
+		return &viaLoad{Err: "import"}
+	}
+	whole, err := packages.DefaultStructuralLoader.Load(ctx, rawPkg)
+	if err != nil {
+		return &viaLoad{Err: "load:" + renderErrClass(err)}
+	}
+	pkg := whole
+	if sc.Component != "" {
+		pkg = nil
+		for i := range whole.Components {
+			if whole.Components[i].Manifest.Name == sc.Component {
+				pkg = &whole.Components[i]
+			}
+		}
+		if pkg == nil {
+			return &viaLoad{Err: "component-not-in-load"}
+		}
+	} else {
+		// LoadComponent("") hands out the root without its sub packages
+		pkg = &packages.Package{Manifest: whole.Manifest, ManifestLock: whole.ManifestLock, Files: whole.Files}
+	}
+	v := &viaLoad{Files: digestFiles(pkg.Files)}
+	inst, err := packages.RenderPackageInstance(ctx, pkg, sh.rctx,
+		packages.VerifNamespacedPackageValidators(), packages.DefaultObjectValidators)
+	if err != nil {
+		v.Err = "render:" + renderErrClass(err)
+		return v
+	}
+	deploy := adapters.NewObjectDeployment(renderScheme)
+	deploy.SetTemplateSpec(packages.RenderObjectSetTemplateSpec(inst))
+	deploy.SetSelector(map[string]string{
+		manifestsv1alpha1.PackageLabel:         inst.Manifest.Name,
+		manifestsv1alpha1.PackageInstanceLabel: sh.apiPkg.ClientObject().GetName(),
+	})
+	g := renderGroup{}
+	fillOutput(&g, deploy)
+	v.Hash, v.JSONSum = g.Hash, g.JSONSum
+	return v
+}
+
 func fillOutput(g *renderGroup, deploy adapters.ObjectDeploymentAccessor) {
 	spec := deploy.GetTemplateSpec()
 	b, err := json.Marshal(spec)
@@ -393,8 +467,11 @@ func deployOnce(ctx context.Context, sc *renderScenario) deployOut {
 	if err != nil {
 		return deployOut{Rejected: true}
 	}
-	got, err := packages.VerifDeployCapture(ctx, renderScheme, apiPkg,
-		&packages.RawPackage{Files: freshFiles(sc.Files)}, env, nil)
+	rawPkg, err := sc.rawPackage(ctx)
+	if err != nil {
+		return deployOut{Rejected: true}
+	}
+	got, err := packages.VerifDeployCapture(ctx, renderScheme, apiPkg, rawPkg, env, nil)
 	if err != nil || got == nil {
 		return deployOut{Rejected: true}
 	}
@@ -455,6 +532,7 @@ func init() {
 		}
 		if sh.built {
 			obs.CtxBefore, obs.CtxAfter = sh.before, ctxDigest(sh.rctx)
+			obs.ViaLoad = renderViaLoad(ctx, &sc, sh)
 		}
 		obs.CtxUnchanged = obs.CtxBefore == obs.CtxAfter
 		obs.Outputs = len(outputs)
